@@ -302,6 +302,23 @@ func (x *Exec) arith(st *State, op token.Token, a, b *Term, ii, yii intInfo, at 
 		st.add(r.Safe)
 	}
 	if r.Ovf != nil && !r.Ovf.IsTrue() {
+		if x.c != nil && x.c.Opts["assume_no_overflow"] == "true" {
+			// stated assumption of the unit (e.g. a reference counter never
+			// reaches 2^63): the arithmetic is exact
+			x.assumes["integer arithmetic in "+x.unit.Short+" does not overflow (opt assume_no_overflow)"] = true
+			st.add(r.Ovf)
+			return r.T
+		}
+		if x.coarse && !(x.c != nil && x.c.Opts["safety"] == "true") {
+			// coarse units do not claim (or assume) absence of overflow: the
+			// result is the mathematical one when it fits and unknown otherwise
+			// (assuming it fits would cut off the paths on which the machine
+			// value wraps, e.g. an unsigned difference computed before its guard)
+			t := x.freshTerm("wr", x.ar.sortOfInt(ii))
+			st.add(x.ar.rangeFact(t, ii))
+			st.add(Implies(r.Ovf, Eq(t, r.T)))
+			return t
+		}
 		x.oblige(st, "ovf", x.site("ovf", at), "", r.Ovf, at.Pos())
 		st.add(r.Ovf)
 	}
